@@ -13,6 +13,7 @@
 //                                               S <json>   statistics at exit
 //                                               R <trace-hash> ok|fail <clause> preds=<..> | <detail>   (replay mode)
 #pragma once
+#include <vector>
 #include "core.hpp"
 #include "env.hpp"
 #include <chrono>
@@ -33,6 +34,7 @@ struct Options {
     uint64_t max_runs = UINT64_MAX;
     uint64_t start_run = 0;
     std::string replay;            ///< replay this plan file and exit
+    std::vector<std::string> preludes; ///< plans executed (results ignored) in the same process before the replayed one: a history of runs
     int64_t dump_plan = -1;        ///< write the plan of this run index to --out and exit
     std::string out;
     std::string outdir = "/verif/replays";
@@ -57,6 +59,7 @@ inline Options parse_options(int argc, char **argv) {
         else if (a == "--max-runs") o.max_runs = std::strtoull(val().c_str(), nullptr, 0);
         else if (a == "--start-run") o.start_run = std::strtoull(val().c_str(), nullptr, 0);
         else if (a == "--replay") o.replay = val();
+        else if (a == "--prelude") o.preludes.push_back(val());
         else if (a == "--dump-plan") o.dump_plan = std::atoll(val().c_str());
         else if (a == "--out") o.out = val();
         else if (a == "--outdir") o.outdir = val();
@@ -115,6 +118,16 @@ int sim_main(int argc, char **argv) {
         if (!p.load(o.replay)) { std::fprintf(stderr, "cannot read %s\n", o.replay.c_str()); return 2; }
         if (p.has("prop")) o.prop = p.get("prop");
         eng.configure(o);
+        for (auto &pre : o.preludes) {
+            // earlier runs of the same worker process: whatever they leave behind in the process (statics, thread-local
+            // state of the library, allocator state) is part of the replayed execution
+            PlanText q;
+            if (!q.load(pre)) { std::fprintf(stderr, "cannot read %s\n", pre.c_str()); return 2; }
+            Stats ignored;
+            alarm(o.watchdog_s);
+            (void) eng.execute(q, ignored);
+            alarm(0);
+        }
         alarm(o.watchdog_s);
         Outcome out = eng.execute(p, st);
         alarm(0);
